@@ -24,6 +24,8 @@ def b_obs(snap):
 
 def expected_refusal_broker(op, snap, quoted):
     k = op[0]
+    if len(op) > 1 and isinstance(op[1], list):
+        op = [op[0], '<an int, not a portfolio id>'] + list(op[2:])
     master = snap[1]
     pfs = dict((a[0], a) for a in snap[2])
     if k == 'subacct':
